@@ -143,7 +143,7 @@ def cases(draw, tier):
             step = dict(step, target="sib")
         hist.append(step)
     # a re-attachment of a not-yet-attached late listener is simply its first attachment
-    return {"spec": spec, "cfg": cfg, "history": hist, "sib_instance_cbs": draw(st.booleans())}
+    return {"spec": spec, "cfg": cfg, "history": hist, "sib_instance_cbs": draw(st.booleans()), "sib_late_as_ctor": draw(st.booleans())}
 
 
 def strategy(tier):
